@@ -184,6 +184,21 @@ class C03(Prop):
         ctx.expect(snapshot(b) == snap, "C03.unary.operands_unchanged", cls=cls)
         w = R.distinguish(ra, O.extract_fa(b))
         ctx.expect(w is None, "C03.unary.operands_unchanged", cls=cls, witness=w)
+        # the same operand given through the constructor, with the whole symbol set declared (symbols that label no
+        # transition belong to the automaton's alphabet, hence to the complement's)
+        sv = O.sym_values(ca[1])
+        decl = sorted(sv.values())
+        c = ctx.call(O.build_fa, ca, cls, scheme, None, "ctor")
+        if ctx.returns(c, "C03.build", cls=cls, via="ctor"):
+            self._result(ctx, "C03.complement", ctx.call(c.value.get_complement),
+                         lambda x: R.complement_witness(ra, x, decl), [], None, cls=cls, via="ctor, all symbols declared")
+            det = ctx.call(c.value.to_deterministic)
+            if det.ok:
+                # a DFA-typed operand made by the library: complement relative to the alphabet that object declares
+                decl2 = sorted(O.extract_fa(det.value).declared_alphabet)
+                self._result(ctx, "C03.complement", ctx.call(det.value.get_complement),
+                             lambda x: R.complement_witness(ra, x, decl2), [], None, cls=cls,
+                             via="ctor, all symbols declared, to_deterministic() first")
         inter = ctx.call(lambda: b & (-b))
         if ctx.returns(inter, "C03.intersection", cls=cls, what="a & -a"):
             ctx.expect(O.extract_fa(inter.value).is_empty(), "C03.intersection.lang", cls=cls, what="a & -a is not empty")
@@ -202,7 +217,7 @@ class C03(Prop):
         snap_a = snapshot(a)
         if cb is None:
             kind = O.case_kind(ca)
-            for cls in (["nfa"] if kind in ("nfa", "dfa") else []) + (["dfa"] if kind == "dfa" else []):
+            for cls in ["enfa"] + (["nfa"] if kind in ("nfa", "dfa") else []) + (["dfa"] if kind == "dfa" else []):
                 self._unary_typed(ctx, ca, ra, cls, scheme)
             sigma = sorted(ra.alphabet)
             x = self._result(ctx, "C03.complement", ctx.call(a.get_complement),
